@@ -70,7 +70,9 @@ type c04Space struct {
 }
 
 func (s *c04Space) name() string {
-	return fmt.Sprintf("%s/noamt=%v/dev=%d", s.P.Name(), s.NoAmt, s.Dev)
+	// Params.Name() omits the balance knobs; the name keys the check
+	// de-duplication, so it must separate every distinct world.
+	return fmt.Sprintf("%s/grossA=%d/reserve=%d/cap=%d/fee=%d/noamt=%v/dev=%d", s.P.Name(), s.P.GrossA, s.P.ReserveSat, s.P.CapacitySat, s.P.FeePerKw, s.NoAmt, s.Dev)
 }
 
 // c04Second is one second-level transaction the cheater can broadcast.
@@ -86,6 +88,8 @@ type c04Snap struct {
 	tx      *wire.MsgTx
 	signed  bool
 	selfIdx int // cheater's own to-local output index according to its own resolution (-1 unknown)
+	// the commitment owner's own and its peer's balance on this commitment (sat)
+	localSat, remoteSat int64
 	second  []c04Second
 }
 
@@ -96,6 +100,7 @@ type c04Harness struct {
 	classes *evid.Counter
 	wtypes  *evid.Counter
 	outcome *evid.Counter
+	lattice *evid.Counter // commitment-level outputs within 1 sat of the owner's dust limit
 
 	done sync.Map // check de-duplication: (space, history prefix, kind)
 
@@ -358,7 +363,8 @@ func (c *c04World) snapshot() {
 			c.digest[i] = append(c.digest[i], hex.EncodeToString(id[:6]))
 			continue
 		}
-		s := &c04Snap{height: h, selfIdx: -1}
+		s := &c04Snap{height: h, selfIdx: -1,
+			localSat: int64(lc.LocalBalance.ToSatoshis()), remoteSat: int64(lc.RemoteBalance.ToSatoshis())}
 		if h == 0 {
 			// The fixture's height-0 commitment carries a fake CommitSig; the
 			// unsigned transaction has the real outputs, which is all the
@@ -524,6 +530,25 @@ func (c *c04World) checkHeight(v int, h uint64, when string, disk *chanstate.Ope
 		return
 	}
 	c.h.heightsChecked.Add(1)
+	// dust lattice accounting: how far is each commitment-level output of this
+	// revoked tx from the commitment owner's dust limit, and is it on the tx?
+	{
+		dust := c.Dust(1 - v)
+		nonAnchor := 0
+		for _, o := range s.tx.TxOut {
+			if !(c.ChanType().HasAnchors() && o.Value == c04AnchorSat) {
+				nonAnchor++
+			}
+		}
+		for _, x := range []struct {
+			name string
+			sat  int64
+		}{{"to_local(cheater)", s.localSat}, {"to_remote(victim)", s.remoteSat}} {
+			if d := x.sat - dust; d >= -1 && d <= 1 {
+				c.h.lattice.Add(fmt.Sprintf("%s|victim%c,%s|%s|dust%+d|commit-level-outputs=%d", c.sp.P.Type, rune(65+v), c.role(v)[7:], x.name, d, nonAnchor))
+			}
+		}
+	}
 	if c.verbose {
 		fmt.Printf("INFO   check victim=%c revoked height %d (%s): revoked tx %v, %d outputs, %d second-level txs\n", 'A'+v, h, when, s.tx.TxHash(), len(s.tx.TxOut), len(s.second))
 	}
@@ -1029,6 +1054,46 @@ func c04Spaces(thorough bool) []*c04Space {
 			{By: 1, Amt: c04sat(41000, 1), Fate: "settle"},
 		}}, ti%2 == 1, c04b2i(thorough))
 	}
+	// balance lattice: revoked commitments on which the cheater's to_local or the
+	// victim's to_remote is worth dust-1 (trimmed), dust, dust+1 of the commitment
+	// owner's dust limit. The poor party T holds exactly that balance from height 0
+	// on (the opener's gross share is solved from the commit fee and anchors); the
+	// rich party offers one dust HTLC that is failed back, which revokes heights
+	// 0..2 on both sides without moving T's balance.
+	for ti, typ := range chanmc.AllTypes {
+		ct := chanmc.ChanTypes[typ]
+		fee := int64(chainfee.SatPerKWeight(6000).FeeForWeight(lnwallet.CommitWeight(ct)))
+		if ct.HasAnchors() {
+			fee += 2 * c04AnchorSat
+		}
+		const capSat, dustA, dustB = int64(10 * 100_000_000), int64(200), int64(1300)
+		n := 0
+		for _, openerB := range []bool{false, true} {
+			for poor := 0; poor < 2; poor++ {
+				for _, ref := range []int64{dustA, dustB} {
+					for _, delta := range []int64{-1, 0, 1} {
+						gross := ref + delta
+						if poor == c04b2i(openerB) {
+							gross += fee // the opener pays commit fee and anchors
+						}
+						grossA := gross
+						if poor == 1 {
+							grossA = capSat - gross
+						}
+						n++
+						noAmt := (ti+n)%2 == 0
+						p := chanmc.Params{Type: typ, OpenerB: openerB, CapacitySat: capSat, GrossA: grossA, ReserveSat: 1,
+							DustA: dustA, DustB: dustB, FeePerKw: 6000,
+							Script: []chanmc.Intent{{By: 1 - poor, Amt: c04sat(100, 0), Fate: "fail"}}}
+						add(p, noAmt, c04b2i(thorough))
+						if thorough {
+							add(p, !noAmt, 0)
+						}
+					}
+				}
+			}
+		}
+	}
 	// all interleavings of small scripts
 	if !thorough {
 		for ti, to := range []string{"tweakless/A", "taprootfinal/B"} {
@@ -1066,7 +1131,7 @@ func c04b2i(b bool) int {
 func TestC04(t *testing.T) {
 	run := evid.Start("C04", "exploration")
 	h := &c04Harness{run: run, samples: evid.NewSamples(6), classes: evid.NewCounter(), wtypes: evid.NewCounter(),
-		outcome: evid.NewCounter(), handled: map[string]bool{}}
+		outcome: evid.NewCounter(), lattice: evid.NewCounter(), handled: map[string]bool{}}
 	// one retribution store (bbolt) for the persist-and-read-back step
 	dir := os.Getenv("VERIF_SCRATCH")
 	if dir == "" {
@@ -1208,31 +1273,37 @@ func TestC04(t *testing.T) {
 	sort.Slice(perSpace, func(i, j int) bool { return perSpace[i]["space"].(string) < perSpace[j]["space"].(string) })
 	sort.Strings(caps)
 	// Determinism re-check: one completed space explored again must give
-	// identical counts (hidden state outside the key would show up here).
-	for i, ps := range perSpace {
-		if run.Violations() > 0 {
+	// identical counts (hidden state outside the key would show up here). A
+	// full-interleaving space is preferred: there states and transitions are both
+	// schedule-independent. Under a deviation bound only the state set is (a state
+	// first met with more deviations is re-expanded when met with fewer, so the
+	// number of transitions depends on worker timing); there states are compared.
+	for pass := 0; pass < 2 && recheck == nil && run.Violations() == 0; pass++ {
+		for _, ps := range perSpace {
+			if ps["exhaustive"] != true || ps["states"].(int64) > 3000 || ps["states"].(int64) < 40 || time.Now().After(deadline) {
+				continue
+			}
+			var sp *c04Space
+			for _, s := range spaces {
+				if s.name() == ps["space"] {
+					sp = s
+				}
+			}
+			if sp == nil || (pass == 0 && sp.Dev >= 0) {
+				continue
+			}
+			res := explore1(sp, 0)
+			same := res.States == ps["states"].(int64)
+			if sp.Dev < 0 {
+				same = same && res.Transitions == ps["transitions"].(int64)
+			}
+			recheck = map[string]any{"space": sp.name(), "states_first": ps["states"], "states_second": res.States,
+				"transitions_first": ps["transitions"], "transitions_second": res.Transitions, "identical": same}
+			if res.Exhaustive && !same {
+				caps = append(caps, "nondeterminism_detected in "+sp.name())
+			}
 			break
 		}
-		if ps["exhaustive"] != true || ps["states"].(int64) > 3000 || ps["states"].(int64) < 40 || time.Now().After(deadline) {
-			continue
-		}
-		var sp *c04Space
-		for _, s := range spaces {
-			if s.name() == ps["space"] {
-				sp = s
-			}
-		}
-		if sp == nil {
-			continue
-		}
-		res := explore1(sp, 0)
-		same := res.States == ps["states"].(int64) && res.Transitions == ps["transitions"].(int64)
-		recheck = map[string]any{"space": sp.name(), "states_first": ps["states"], "states_second": res.States, "identical": same}
-		if res.Exhaustive && !same {
-			caps = append(caps, "nondeterminism_detected in "+sp.name())
-		}
-		_ = i
-		break
 	}
 	if h.nondet.Load() > 0 {
 		caps = append(caps, "nondeterminism_detected (violation candidate not reproduced)")
@@ -1267,6 +1338,8 @@ func TestC04(t *testing.T) {
 		"justice_verifications_distinct":      h.memoMisses.Load(),
 		"justice_verifications_memoized":      h.memoHits.Load(),
 		"outcome_classes":                     h.outcome.Map(),
+		"dust_lattice_cells_hit":              h.lattice.Distinct(),
+		"dust_lattice_cells":                  h.lattice.Map(),
 		"per_space":                           perSpace,
 		"determinism_recheck":                 recheck,
 		"reloads":                             h.stats.Reloads.Load(),
